@@ -123,7 +123,7 @@ def check_property(prop, tier, seed, rebaseline=False, jobs=None):
     contracts = dict(mod.CONTRACTS)
     harnesses = list(getattr(mod, "HARNESSES", []))
     jobs = jobs or min(16, os.cpu_count() or 4)
-    tasks_f = [(prop, k) for k in contracts if contracts[k].get("prop", prop) == prop and not contracts[k].get("assumed")]
+    tasks_f = [(prop, k) for k in contracts if not k.startswith("__") and contracts[k].get("prop", prop) == prop and not contracts[k].get("assumed")]
     tasks_h = [(prop, h.name, tier, seed) for h in harnesses if tier in getattr(h, "tiers", ("quick", "thorough"))]
     with mp.get_context("fork").Pool(jobs) as pool:
         fr = pool.map_async(verify_function, tasks_f, chunksize=1)
